@@ -1,2 +1,4 @@
 -- root of the helper-lemma library
 import TjdLemmas.C14Lemmas
+import TjdLemmas.C07Lemmas
+import TjdLemmas.AutojacLemmas
